@@ -1143,6 +1143,35 @@ func runC17(c *Checker) {
 			}
 		})
 		c.decide(okHash, "SIDDIR", "ConnData.SID|SHA-512 of the whole secret", sidFn.Pos(), "sha512.Sum512(passphrase entropy | HMAC(ECDH(remote, local)))", "the SID is not the SHA-512 of the whole passphrase entropy / of the HMAC of the ECDH output")
+		// ... computed from the stored secret at every call: a success return never hands out a value
+		// that was not hashed in this invocation (a remembered SID can outlive a change of the secret)
+		stale := ""
+		allInstrs(sidFn, func(in ssa.Instruction) {
+			ret, ok := in.(*ssa.Return)
+			if !ok || ret.Block().Comment == "recover" || len(ret.Results) < 2 {
+				return
+			}
+			succ := false
+			for _, e := range expandValues(ret.Results[1]) {
+				if isNilConst(e) {
+					succ = true
+				}
+			}
+			if !succ {
+				return
+			}
+			for _, v := range expandValues(ret.Results[0]) {
+				if call, ok := v.(*ssa.Call); ok && staticCalleeIs(call.Common(), "sha512", "", "Sum512") {
+					continue
+				}
+				if k, ok := v.(*ssa.Const); ok && k.Value == nil {
+					continue // zero value on the error legs that share the return
+				}
+				stale = w.canonFB(v) + " at " + w.pos(instrPos(ret))
+			}
+		})
+		c.decide(stale == "", "SIDDIR", "ConnData.SID|recomputed at every call", sidFn.Pos(), "every successful return carries a hash computed in this invocation",
+			"SID() can return "+stale+", a value not derived from the currently stored secret in this call: after the secret changes (pairing) the two sides can disagree on the rendezvous")
 		// the sid stored in Server/Client comes from SID()
 		for _, fk := range []string{"mailbox.Server.sid", "mailbox.Client.sid"} {
 			f := w.Field(fk)
@@ -1163,7 +1192,7 @@ func runC17(c *Checker) {
 			}
 		}
 	}
-	c.floor("SIDDIR", 10)
+	c.floor("SIDDIR", 11)
 	// both parties take the rendezvous from the *current* secret when they reconnect
 	c.mute = map[string]bool{"EXCL": true}
 	ruleAcceptDial(c)
@@ -1261,6 +1290,9 @@ func ruleRemoteKey(c *Checker) {
 // importLayers runs the checks of other properties on the same world and records their
 // obligations in c under the rule name LAYER/<id>:<rule>.
 func importLayers(c *Checker, ids ...string) {
+	if c.nested {
+		return
+	}
 	n := 0
 	for _, id := range ids {
 		pr := registry[id]
@@ -1269,6 +1301,7 @@ func importLayers(c *Checker, ids ...string) {
 			continue
 		}
 		sub := newChecker(c.w, id, c.Tier)
+		sub.nested = true
 		func() {
 			defer func() {
 				if r := recover(); r != nil {
@@ -1283,7 +1316,7 @@ func importLayers(c *Checker, ids ...string) {
 			n++
 		}
 	}
-	if n < 200 {
+	if n < 50*len(ids)/2 {
 		c.fail("LAYER", "imported obligations", 0, fmt.Sprintf("only %d obligations imported from %v", n, ids))
 	}
 }
